@@ -85,7 +85,9 @@ func vCheckCandidates(src, tgt string) (string, int) {
 	return "", len(mrs)
 }
 
-var vC17Alphabet = []string{"a", "b", " ", ".", "\n", "\xff", "é", "\xef\xbf\xbd", "\x00", "\u00ad", "\u200b", "\ufeff", "\x1b", "\ue000", "\u0085", "\v", " ", ",", "漢", "́", " ", "-", "\xe2\x80"}
+var vC17Alphabet = []string{"a", "b", " ", ".", "\n", "\xff", "é", "\xef\xbf\xbd", "\x00", "\u00ad", "\u200b", "\ufeff", "\x1b", "\ue000", "\u0085", "\v", " ", ",", "漢", "́", " ", "-", "\xe2\x80",
+	// punctuation and symbols that take several bytes
+	"—", "“", "”", "…", "«", "§", "·", "¡", "、", "‽", "©", "€", "\xe2\x80\x94x"}
 
 func TestVerifC17(t *testing.T) {
 	e := vStart(t, "C17")
@@ -93,7 +95,7 @@ func TestVerifC17(t *testing.T) {
 
 	// (1) tokenizer: exhaustive strings over a small hostile alphabet
 	L := e.pick(5, 6)
-	alpha := vC17Alphabet[:10]
+	alpha := append(append([]string{}, vC17Alphabet[:10]...), "—")
 	idx := 0
 	total := 1
 	for l := 0; l < L; l++ {
@@ -172,7 +174,7 @@ func TestVerifC17(t *testing.T) {
 					for i := range w {
 						w[i] = string(rune('a' + r.Intn(vocab)))
 						if r.Intn(10) == 0 {
-							w[i] = []string{"é", "漢", "a\xffb", "x.", "q\xef\xbf\xbdr", "\xef\xbf\xbd"}[r.Intn(6)]
+							w[i] = []string{"é", "漢", "a\xffb", "x.", "q\xef\xbf\xbdr", "\xef\xbf\xbd", "—", "x…", "“a”", "§"}[r.Intn(10)]
 						}
 					}
 					return strings.Join(w, sep)
